@@ -713,9 +713,9 @@ qb_ipcs_disconnect(struct qb_ipcs_connection *c)
 			res = c->service->serv_fns.connection_closed(c);
 		}
 		c->closed_stage = QB_IPCS_CLOSED_DONE;
-		if (res != 0) {
+		if (res != 0 && c->service->poll_fns.job_add != NULL) {
 			/* OK, so they want the connection_closed
-			 * function re-run */
+			 * function re-run (which takes a job_add handler) */
 			res = c->service->poll_fns.job_add(QB_LOOP_LOW,
 							   c, _rerun_closed_);
 			if (res == 0) {
